@@ -199,6 +199,11 @@ def abstract(w, sess, frames, t0, hs_len, res, inst="C0"):
                 else:
                     rec["out"].append({"kind": "other", "useq": 0, "ufrag": 0, "dseq": 0, "dfrag": 0, "last": 0,
                                        "pk": 0, "off": 0, "len": 0})
+            if any(o["kind"] == "other" for o in rec["out"]):
+                # the client left the data plane (handshake_lazyoff(): it switches the session to immediate mode after
+                # too many unanswered queries) - Tunnel.tla models one fixed mode: the bound prefix ends here
+                res["stats"]["tcli_truncated"] = "option query mid-transfer (lazy mode switched off)"
+                break
             evs.append(rec)
             state0 = c
             cur = None
